@@ -26,6 +26,7 @@ ASSUME = ["braces other than the documented placeholders are template syntax and
 OLD, NEW = "v2020.1001-beta", "v2020.1002-beta"
 OLDP, NEWP = "2020.1001b0", "2020.1002b0"
 NASTY = ["'", '"', "\\", "$", "`", " ", "\n", "-", "--", ";", "&&", "|", "#", "$(id)", "'; echo x; '", "\\'", "é", "→", "%s", "''", '""',
+         "e\u0301", "\u2126", "A\u030a", "\ufb01", "\u1e9b\u0323",  # not in Unicode normal form C / compatibility characters
          "\t", "$HOME", "*", "!", "~", "--amend", "--allow-empty-message", "--author='evil <e@e>'", "\\n"]
 WORDS = ["bump", "version", "to", "release", "from", "chore:", "x", "(ci skip)"]
 PLACE = ["{new_version}", "{old_version}", "{new_version_pep440}", "{old_version_pep440}"]
@@ -59,7 +60,8 @@ def gen_msg(d, cli):
 def gen_name(d):
     base = d.choice(["a.txt", "read me.md", "it's.txt", 'say "hi".txt', "co$t.txt", "ünï→.txt", "-dash.txt", "semi;colon.txt",
                      "#hash.txt", "b`tick`.txt", "sub dir/file name.txt", "back\\slash.txt", "amp&ersand.txt", "$(id).txt", "--update.txt",
-                     "two  blanks.txt", "trail space .txt", "pipe|name.txt", "tilde~.txt", "percent%d.txt"])
+                     "two  blanks.txt", "trail space .txt", "pipe|name.txt", "tilde~.txt", "percent%d.txt",
+                     "cafe\u0301.txt", "\u2126hm.txt"])
     return base
 
 
